@@ -28,30 +28,32 @@ import (
 const chainName = "eth"
 
 type Op struct {
-	Kind    string     `json:"op"`
-	Sender  int        `json:"sender,omitempty"`
-	Dest    int        `json:"dest,omitempty"`
-	Amount  int64      `json:"amount,omitempty"`
-	Fee     int64      `json:"fee,omitempty"`
-	Token   int        `json:"token,omitempty"`
-	Which   int        `json:"which,omitempty"`
-	ID      uint64     `json:"id,omitempty"`
-	Who     int        `json:"who,omitempty"`
-	Add     int64      `json:"add,omitempty"`
-	FeeRcv  int        `json:"fee_receiver,omitempty"`
-	BaseFee int64      `json:"base_fee,omitempty"`
-	MinFee  int64      `json:"min_fee,omitempty"`
-	Auth    bool       `json:"auth,omitempty"`
-	Nonce   uint64     `json:"nonce,omitempty"`
-	H       uint64     `json:"h,omitempty"`
-	Success bool       `json:"success,omitempty"`
-	Refund  int        `json:"refund,omitempty"`
-	Coins   [][2]int64 `json:"coins,omitempty"`
-	To      int        `json:"to,omitempty"`
-	Data    []byte     `json:"data,omitempty"`
-	Memo    []byte     `json:"memo,omitempty"`
-	E       uint64     `json:"event_nonce,omitempty"`
-	Params  [4]uint64  `json:"params,omitempty"` // batch timeout, avg block, avg ext block, bridge call timeout
+	Kind      string     `json:"op"`
+	Sender    int        `json:"sender,omitempty"`
+	Dest      int        `json:"dest,omitempty"`
+	Amount    int64      `json:"amount,omitempty"`
+	Fee       int64      `json:"fee,omitempty"`
+	Token     int        `json:"token,omitempty"`
+	Which     int        `json:"which,omitempty"`
+	ID        uint64     `json:"id,omitempty"`
+	Who       int        `json:"who,omitempty"`
+	Add       int64      `json:"add,omitempty"`
+	FeeRcv    int        `json:"fee_receiver,omitempty"`
+	BaseFee   int64      `json:"base_fee,omitempty"`
+	MinFee    int64      `json:"min_fee,omitempty"`
+	Auth      bool       `json:"auth,omitempty"`
+	Nonce     uint64     `json:"nonce,omitempty"`
+	H         uint64     `json:"h,omitempty"`
+	Dissent   uint64     `json:"dissent_height,omitempty"` // one oracle (DissentBy) reports the same event with this height instead of H
+	DissentBy int        `json:"dissent_by,omitempty"`
+	Success   bool       `json:"success,omitempty"`
+	Refund    int        `json:"refund,omitempty"`
+	Coins     [][2]int64 `json:"coins,omitempty"`
+	To        int        `json:"to,omitempty"`
+	Data      []byte     `json:"data,omitempty"`
+	Memo      []byte     `json:"memo,omitempty"`
+	E         uint64     `json:"event_nonce,omitempty"`
+	Params    [4]uint64  `json:"params,omitempty"` // batch timeout, avg block, avg ext block, bridge call timeout
 }
 
 type Tx struct {
@@ -221,24 +223,26 @@ func (w *World) tryMsg(f func(ctx sdk.Context) error) bool {
 	return w.c.Try(f) == nil
 }
 
-// observeClaim lets every oracle vote for the claim; returns whether the event became observed.
-func (w *World) observeClaim(mk func(nonce uint64) crosschaintypes.ExternalClaim) bool {
+// observeClaim lets every oracle vote for the event; oracle op.DissentBy reports it with the height op.Dissent
+// (if non-zero) instead of op.H, the other two agree on op.H. Returns whether the event became observed.
+func (w *World) observeClaim(op Op, mk func(nonce, height uint64) crosschaintypes.ExternalClaim) bool {
 	if w.stuck {
 		return false
 	}
-	probe := mk(w.nextEv)
 	// ValidateBasic is what the ante handler runs; an invalid claim never reaches the keeper
 	type vb interface{ ValidateBasic() error }
-	// bridger/chain are filled in by x.Claim; validate a filled copy
-	filled := mk(w.nextEv)
+	filled := mk(w.nextEv, op.H)
 	fillForValidation(filled, w.x.Oracles[0].Bridger.Acc().String())
 	if err := filled.(vb).ValidateBasic(); err != nil {
 		return false
 	}
-	_ = probe
 	before := w.x.Keeper.GetLastObservedEventNonce(w.c.Ctx)
-	for _, o := range w.x.Oracles {
-		_ = w.x.Claim(o, mk(w.nextEv))
+	for i, o := range w.x.Oracles {
+		h := op.H
+		if op.Dissent != 0 && i == op.DissentBy%len(w.x.Oracles) {
+			h = op.Dissent
+		}
+		_ = w.x.Claim(o, mk(w.nextEv, h))
 	}
 	after := w.x.Keeper.GetLastObservedEventNonce(w.c.Ctx)
 	if after == before+1 && after == w.nextEv {
@@ -309,17 +313,17 @@ func (w *World) apply(op Op) (accepted bool) {
 			return err
 		})
 	case "BatchExecuted":
-		return w.observeClaim(func(n uint64) crosschaintypes.ExternalClaim {
-			return &crosschaintypes.MsgSendToExternalClaim{EventNonce: n, BlockHeight: op.H, BatchNonce: op.Nonce, TokenContract: w.toks[op.Token].Contract}
+		return w.observeClaim(op, func(n, h uint64) crosschaintypes.ExternalClaim {
+			return &crosschaintypes.MsgSendToExternalClaim{EventNonce: n, BlockHeight: h, BatchNonce: op.Nonce, TokenContract: w.toks[op.Token].Contract}
 		})
 	case "Observe":
-		return w.observeClaim(func(n uint64) crosschaintypes.ExternalClaim {
-			return &crosschaintypes.MsgSendToFxClaim{EventNonce: n, BlockHeight: op.H, TokenContract: contracts[0], Amount: sdkmath.NewInt(1),
+		return w.observeClaim(op, func(n, h uint64) crosschaintypes.ExternalClaim {
+			return &crosschaintypes.MsgSendToFxClaim{EventNonce: n, BlockHeight: h, TokenContract: contracts[0], Amount: sdkmath.NewInt(1),
 				Sender: extAddrs[0], Receiver: lib.EthKey(w.c.Seed, "c05sink", 0).Acc().String()}
 		})
 	case "ObserveResult":
-		return w.observeClaim(func(n uint64) crosschaintypes.ExternalClaim {
-			return &crosschaintypes.MsgBridgeCallResultClaim{EventNonce: n, BlockHeight: op.H, Nonce: op.Nonce, TxOrigin: extAddrs[1], Success: op.Success}
+		return w.observeClaim(op, func(n, h uint64) crosschaintypes.ExternalClaim {
+			return &crosschaintypes.MsgBridgeCallResultClaim{EventNonce: n, BlockHeight: h, Nonce: op.Nonce, TxOrigin: extAddrs[1], Success: op.Success}
 		})
 	case "ExecResult":
 		return w.tryMsg(func(ctx sdk.Context) error { return w.x.Keeper.ExecuteClaim(ctx, op.E) })
